@@ -16,14 +16,14 @@
       sigsel: name range? | concat                 concat: "{" sigsel ( "," sigsel )*  "}"
       _namelist: name ( "," name )*
       name: ( /[a-z_][a-z0-9_]*/i | /\\[^\t \r\n]+[\t \r\n]/i | /[0-9]+'[bdh][0-9a-f]+/i )
-      COMMENT: /\/\*(\*(?!\/)|[^*])*\*\// | /\(\*(\*(?!\))|[^*])*\*\)/ |  "//" /(.)*/ NEWLINE
+      COMMENT: /\/\*(\*(?!\/)|[^*])*\*\// | /\(\*(\*(?!\))|[^*])*\*\)/ |  "//" /[^\n]*/
       %ignore ( /\r?\n/ | COMMENT )+               %ignore /[\t \f]+/
 
     How lark lexes this grammar (read off lark/lexer.py, the terminal list and the LALR table, confirmed by running the real
     parser; harness/vlog_text.py keeps the probes and re-checks the table facts used here on every run).
     * The contextual lexer builds one scanner per parser state from the terminals acceptable there plus the two ignore
       terminals.  A scanner is ONE alternation in the order (priority, maximal width, length of the pattern source, name):
-          IGNORE_0 = one or more of: block comment, attribute, "//" (.)* NEWLINE, \r?\n ;  sized constant, plain name,
+          IGNORE_0 = one or more of: block comment, attribute, "//" [^\n]* , \r?\n ;  sized constant, plain name,
           escaped name, IGNORE_1 = [\t \f]+ , /[0-9]+/ , then the string literals.
       Python takes the FIRST alternative that matches.  The non-ignored alternatives begin with pairwise different
       characters, so the order matters only for lpar-star: an attribute wherever a complete one can be read, else "(".
@@ -41,8 +41,9 @@
     * ignored: "\n", "\r\n" (a lone "\r" raises), tab, blank, form feed (vertical tab raises), a block comment up to the
       first star-slash (so slash-star-slash is not a comment), an attribute up to the first star-parenthesis from the third
       character on (lpar-star-rpar is not an attribute, lpar-star-rpar-blank-star-rpar is one), and "//" up to the next
-      "\n" -- a "//" comment that is NOT followed by a newline before
-      the end of the text is not a comment (NEWLINE is mandatory): lark raises (finding, see Proofs/VerilogTextProofs.v).
+      "\n" or the end of the text (a "\r" in front of that "\n" belongs to the comment; the "\n" is then ignored by the line
+      break alternative).  Before the repair (NEWLINE was mandatory after the comment) a text ending in a "//" comment without
+      line break raised.
     * an escaped name extends to the first tab / blank / "\r" / "\n" and KEEPS that character (VerilogTransformer.name
       removes the backslash and the last character); at the end of the text it is not a token.  A sized constant takes
       the longest run of hexadecimal digits, for every base: "1'b0f" is one token, "1'b0x" is "1'b0" followed by "x".
@@ -119,13 +120,14 @@ Fixpoint drop_prefix (p s : string) : option string :=
                    end
   end.
 
-(** * ignored text: the maximal prefix made of IGNORE_0 / IGNORE_1 matches is removed.  Inside a comment the scanner runs to
-    its end; if the text ends first the opening characters are not ignorable in lark and nothing else matches "/" (resp.
-    nothing matches the "*" after "("): lark raises, here [None]. *)
+(** * ignored text: the maximal prefix made of IGNORE_0 / IGNORE_1 matches is removed.  Inside a block comment / attribute the
+    scanner runs to its end; if the text ends first the opening characters are not ignorable in lark and nothing else matches "/"
+    (resp. nothing matches the "*" after "("): lark raises, here [None].  A "//" comment ends in front of the next "\n" (which
+    the line break alternative then removes) or at the end of the text. *)
 Inductive kst := K0 | KBlock (star : bool) | KAttr (star : bool) | KLine.
 Fixpoint skip_go (k : kst) (s : string) : option string :=
   match s with
-  | EmptyString => match k with K0 => Some EmptyString | _ => None end
+  | EmptyString => match k with K0 | KLine => Some EmptyString | _ => None end
   | String c r =>
       match k with
       | KLine => if Ascii.eqb c c_nl then skip_go K0 r else skip_go KLine r
@@ -540,10 +542,14 @@ Fixpoint glue_ok (l : list (sep * vtok)) (rest : string) : bool :=
   | [] => true
   | (s, t) :: r => sep_ok s && follows_ok t (render r rest) && glue_ok r rest
   end.
+(* the end of a text: ignored text, then possibly a last "//" comment without line break *)
+Definition tail_text (t : option string) : string := match t with Some b => ("//" ++ b)%string | None => EmptyString end.
+Definition tail_ok (t : option string) : bool := match t with Some b => no_newline b | None => true end.
+Definition end_text (sf : sep) (t : option string) : string := (sep_text sf ++ tail_text t)%string.
 (* [s] is a way of writing the token stream [ts]: ignored text before every token and at the end *)
 Definition rendering (s : string) (ts : list vtok) : Prop :=
-  exists l sf, s = render l (sep_text sf) /\ map snd l = ts /\
-    toks_ok LTop ts = true /\ glue_ok l (sep_text sf) = true /\ sep_ok sf = true.
+  exists l sf tl, s = render l (end_text sf tl) /\ map snd l = ts /\
+    toks_ok LTop ts = true /\ glue_ok l (end_text sf tl) = true /\ sep_ok sf = true /\ tail_ok tl = true.
 
 (** * printer: every token preceded by a blank, a line break at the end *)
 Definition print_toks (ts : list vtok) : string := render (map (fun t => ([IgSpace], t)) ts) nl1.
